@@ -586,3 +586,17 @@ pub proof fn lemma_pair_ord<T>(ord: spec_fn(T, T) -> Ordering)
 {
     reveal(total_preorder);
 }
+// the property's own words: the view is a permutation of the source (`p` = the tags) and ordered by the comparison
+pub proof fn lemma_view_is_sorted_permutation<T>(buf: Seq<(usize, T)>, s: Seq<T>, ord: spec_fn(T, T) -> Ordering)
+    requires sinv(buf, s, ord)
+    ensures permuted(s, vals(buf), Seq::new(buf.len(), |i: int| buf[i].0 as int)),
+        forall|i: int, j: int| 0 <= i < j < vals(buf).len() ==> ord(#[trigger] vals(buf)[i], #[trigger] vals(buf)[j]) != Ordering::Greater
+{
+    let p = Seq::new(buf.len(), |i: int| buf[i].0 as int);
+    assert forall|i: int| 0 <= i < s.len() implies 0 <= #[trigger] p[i] < s.len() by { assert(buf[i].0 < s.len()); }
+    assert forall|i: int, j: int| 0 <= i < j < s.len() implies p[i] != p[j] by { assert(buf[i].0 != buf[j].0); }
+    assert forall|i: int| 0 <= i < vals(buf).len() implies #[trigger] vals(buf)[i] == s[p[i]] by { assert(s[buf[i].0 as int] == buf[i].1); }
+    assert forall|i: int, j: int| 0 <= i < j < vals(buf).len() implies ord(#[trigger] vals(buf)[i], #[trigger] vals(buf)[j]) != Ordering::Greater by {
+        assert(le(ord, buf[i].1, buf[j].1));
+    }
+}
